@@ -69,6 +69,11 @@ def run(ctx):
             cases.append(t.gen_case(rng, version=v, profile="big", keylen=rng.choice([0, 1, 8, 16, 24, 33])))
         for _ in range(ctx.n(10, 60)):
             cases.append(t.gen_case(rng, version=v))
+        # no optional blocks, key (or mask) long enough to cross the 9999-character limit on its own
+        for kl in (4950, 4958, 4966, 4974, 4979, 4982, 4990, 5000, 6000, 8191, 8192):
+            cases.append(t.gen_case(rng, version=v, profile="none", keylen=kl, mask=None, algorithm="0"))
+        for m in (4966, 4975, 4990, 20000):
+            cases.append(t.gen_case(rng, version=v, profile="none", keylen=16, mask=m))
     viol, diffs, dist, samples = [], [], {}, []
     seen = set()
     rows = []
